@@ -37,6 +37,9 @@ class Prop(common.PropertyCheck):
         for _ in range(self.budget(120, 1500)):
             yield {'k': 'data', 'neg': rng.choice(['none', 'tiny', 'small', 'large']), 'multi': rng.random() < 0.4,
                    'cont': rng.choice(['array', 'sample', 'sample_rfi']), 'over': rng.choice([None, 'T', 'M', 'W']), 'seed': rng.randrange(1 << 30)}
+        # data sets without a known range whose largest value is not positive: the derived T must be refused
+        for neg in ('allzero', 'nonpos', 'allzero', 'nonpos'):
+            yield {'k': 'data', 'neg': neg, 'multi': rng.random() < 0.5, 'cont': 'array', 'over': rng.choice([None, 'M', 'W']), 'seed': rng.randrange(1 << 30)}
         for bad in ({'T': 0.0}, {'T': -5.0}, {'M': 0.0}, {'M': -1.0}, {'W': -0.1}):
             yield {'k': 'bad', 'kw': bad}
         yield {'k': 'axis'}
@@ -82,7 +85,11 @@ class Prop(common.PropertyCheck):
                 n = 50
                 if case['cont'] == 'array':
                     a = r.lognormal(4 + i, 1.0, size=(n, 2))
-                    if case['neg'] != 'none':
+                    if case['neg'] == 'allzero':
+                        a[:, 1] = 0.0
+                    elif case['neg'] == 'nonpos':
+                        a[:, 1] = -a[:, 1]; a[3, 1] = 0.0
+                    elif case['neg'] != 'none':
                         a[0, 1] = {'tiny': -1e-6 * (i + 1), 'small': -3.0 * (i + 1), 'large': -500.0 * (i + 1)}[case['neg']]
                     d = a
                     rng_hi = None
@@ -155,6 +162,10 @@ class Prop(common.PropertyCheck):
         else:
             T = max(impl['maxs'])
         T = kw.get('T', T)
+        if T <= 0:
+            if str(impl.get('err', '')).startswith('ValueError'):
+                return None
+            return 'the data give T=%r (not positive): not refused with ValueError but %s' % (T, impl.get('err') or 'accepted with T, M, W = %s' % impl.get('TMW'))
         M = kw.get('M', max(4.5, 4.5 * math.log10(T) / math.log10(262144)))
         if 'W' in kw:
             W = kw['W']
